@@ -15,7 +15,7 @@ MS_ALGS = ["FDD_MS", "EFDD_MS", "SSIcov_MS", "SSIdat_MS", "pLSCF_MS"]
 TRANSF = ["gain", "gain_pow2", "perm", "mix", "time", "time_pow2"]
 REQUIRED_MONITORS = [f"{t}@{a}" for a in SS_ALGS for t in ("gain", "perm", "mix", "time")] + [f"{t}@{a}" for a in MS_ALGS for t in ("gain", "perm", "time")] + ["unit-normalisation", "labels@SC_apply under an exact time unit", "stable-pole labels on bit-identical tables"]
 ALL_STATES = ["method_SD=per", "method_SD=cor", "ref_ind subset", "free decay + noise", "white noise", "random response", "default hard criteria", "neutral MPC/MPD"]
-REQUIRED_STATES = ["extraction at the automatically selected order", "multi-setup records scaled by a gain below 3e-4", "method_SD=per", "method_SD=cor", "ref_ind subset", "free decay + noise", "white noise", "random response", "base record of integer type", "picks and band limits exactly on spectral lines (time-unit clause)", "integer-typed picks (time-unit clause)"]
+REQUIRED_STATES = ["records with static offsets, a spectral algorithm run first on the same setup", "extraction at the automatically selected order", "multi-setup records scaled by a gain below 3e-4", "method_SD=per", "method_SD=cor", "ref_ind subset", "free decay + noise", "white noise", "random response", "base record of integer type", "picks and band limits exactly on spectral lines (time-unit clause)", "integer-typed picks (time-unit clause)"]
 RULE = ("two (three) executions of the real algorithm through a setup on related inputs: base, transformed (gain 10^U(-6,6) or 2^k, channel permutation "
         "with ref_ind mapped, orthogonal mixing, time unit k in 10^U(-2,2) or 2^k) and a rounding probe (data * (1 + 1e-15 noise)); whole pole tables "
         "compared column by column as multisets of (f, xi, shape up to conjugation), NaN counts equal, extracted Fn/Xi/Phi and the frequency grid; a "
@@ -98,7 +98,12 @@ def run_single(data, fs, spec, sel, ref_ind=None):
         kw["ref_ind"] = list(ref_ind)
     a = cls_of(spec["alg"])(name="a", **kw)
     ss = SingleSetup(np.array(data, copy=True), fs)
-    ss.add_algorithms(a)
+    if spec.get("pre_spectral"):
+        # a spectral analysis of the same setup runs first (what a session usually starts with): it reads the records, nothing more
+        from pyoma2.algorithms import FDD
+        ss.add_algorithms(FDD(name="pre", nxseg=256), a)
+    else:
+        ss.add_algorithms(a)
     ss.run_all()
     do_mpe(ss, a, spec, sel, fs)
     return a.result
@@ -315,6 +320,12 @@ def run_single_case(ctx, case, rng):
     if "br" in spec["kw"]:
         spec["kw"]["ordmax"] = min(spec["kw"]["ordmax"], spec["kw"]["br"] * nch - 1)
     sel = [float(f) for f in fn]
+    if alg.startswith("SSI") and tr in ("perm", "gain") and case.get("k", 0) % 3 == 0:
+        # records with static offsets (not detrended), analysed after a spectral algorithm of the same setup; the permuted copy data[:, perm]
+        # is a column-major array, the base record a row-major one
+        data = data + rng.uniform(-4, 4, (1, nch)) * np.std(data)
+        spec["pre_spectral"] = True
+        ctx.state("records with static offsets, a spectral algorithm run first on the same setup")
     if spec["mpe"] == "order" and alg.startswith("SSI") and case.get("k", 0) % 2 == 1:
         spec["find_min"] = True
         ctx.state("extraction at the automatically selected order")
